@@ -24,6 +24,7 @@ def run(ctx, rep):
         check_iso(crate, rep, cfg)
         check_rec(crate, rep, cfg)
         check_same(crate, rep, cfg)
+        check_child_vm(crate, rep, cfg)
         check_bind(crate, rep, cfg)
         check_getter(crate, rep, cfg)
 
@@ -180,6 +181,37 @@ def check_same(crate, rep, cfg):
                                     + ("" if n >= 2 else " — VIOLATED (floor 2)"))
 
 
+def check_child_vm(crate, rep, cfg):
+    """C05.SAME — the VM a component body runs in is the caller's VM one level deeper: same Tera, same template, same API-level escaping
+    override (otherwise a component called under render(.., autoescape=..)/render_str escapes differently from its caller, and a call from a
+    template no longer renders what the API renders)."""
+    b = crate.one("vm::interpreter::VirtualMachine::<'tera>::render_component")
+    tr = Tracer(b)
+    aggs = list(find_aggs(b, "vm::interpreter::VirtualMachine", "VirtualMachine"))
+    FIELDS = ("tera", "template", "autoescape_override", "include_depth")
+    if len(aggs) != 1:
+        for f in FIELDS:
+            rep.bad("C05.SAME", "C05.SAME:render_component:child-vm-inherits:%s" % f, b.where(0), "the component's VM takes `%s` from the calling VM — VIOLATED: "
+                    "%d constructions of the child VirtualMachine found in render_component" % (f, len(aggs)))
+        return
+    bb, idx, st = aggs[0]
+    rv = st["rv"]
+    for f in FIELDS:
+        leaves = tr.operand(rv["ops"][rv["fields"].index(f)])
+        ok = bool(leaves)
+        for l in leaves:
+            if l.kind == "param" and l.detail == 1 and "." + f in l.projs:
+                continue
+            # `..Self::new(self.tera, self.template)` style: the constructor argument that becomes this field is the parent's
+            if f in ("tera", "template") and l.kind == "call" and l.detail[0].endswith("VirtualMachine::<'tera>::new") and "." + f in l.projs:
+                al = tr.operand(b.term(l.detail[2])["args"][("tera", "template").index(f)])
+                if al and all(x.kind == "param" and x.detail == 1 and "." + f in x.projs for x in al):
+                    continue
+            ok = False
+        rep.add("C05.SAME", "C05.SAME:render_component:child-vm-inherits:%s" % f, ok, b.where(bb, idx), "the component's VM takes `%s` from the calling VM" % f
+                + ("" if ok else " — VIOLATED: origin %s" % sorted(leaf_str(l) for l in leaves)[:2]))
+
+
 def check_bind(crate, rep, cfg):
     """C05.BIND — the shape of ComponentDefinition::build_context: what gets into the component's context, under which edge."""
     import rrec
@@ -220,7 +252,7 @@ def check_bind(crate, rep, cfg):
                 for f in fl:
                     if f[0] == "variant" and f[1] == "std::option::Option" and f[3] == frozenset({"Some"}) and f[4] and (field in f[2] or on_field):
                         out.append((sb, tgt))
-                    if f[0] == "call" and f[1].endswith("::is_some") and f[3] is True:
+                    if f[0] == "call" and ((f[1].endswith("::is_some") and f[3] is True) or (f[1].endswith("::is_none") and f[3] is False)):
                         ct = b.term(f[4])
                         if any(last_field(l.projs) == "." + field for l in tr.operand(ct["args"][0])):
                             out.append((sb, tgt))
@@ -281,6 +313,31 @@ def check_bind(crate, rep, cfg):
         for ft in false_t:
             r = b.reach_from(ft)
             if any(x[0] in r for x in inserts) or oks[0][0] in r:
+                ok = False
+    tm2 = [(bb, t) for bb, t in b.calls() if callee_def(t).endswith("ast::Type::matches_value")]
+    if not tm and len(tm2) == 1 and prov:
+        # the same test spelled out: `if let Some(expected) = arg_def.typ && !expected.matches_value(&value) { return Err }` — an argument
+        # without a declared type accepts anything (that is what ComponentArgument::type_matches answers too)
+        tm = tm2
+        tb = tm[0][0]
+        ok = any(b.dominates(tgt, tb) for sb, tgt in se)
+        vl = tr.operand(tm[0][1]["args"][1])
+        ok = ok and bool(vl) and all(l.kind == "call" and l.detail[2] == g2 for l in vl)
+        el = tr.operand(tm[0][1]["args"][0])
+        ok = ok and bool(el) and all(".typ" in l.projs for l in el)
+        false_t = [tgt for sb in sorted(b.reachable) if b.term(sb)["k"] == "switch" for tgt, fl in ef.facts_for_switch(sb).items() for f in fl
+                   if f[0] == "call" and f[4] == tb and f[3] is False]
+        ok = ok and bool(false_t)
+        for ft in false_t:
+            r = b.reach_from(ft)
+            if any(x[0] in r for x in inserts) or oks[0][0] in r:
+                ok = False
+        # untyped: the None edge of the `typ` test; every path from "a value was provided" to the binding goes through the check or that edge
+        none_t = set()
+        for sb, tgt in field_some_edge("typ"):
+            none_t |= {x for x in b.succ[sb] if x != tgt and b.term(x)["k"] != "unreachable"}
+        for sb, tgt in se:
+            if prov[0][0] in b.reach_from(tgt, removed_blocks=frozenset({tb} | none_t)):
                 ok = False
     rep.add("C05.BIND", "C05.BIND:type-checked-before-bound", ok, b.where(tm[0][0]) if tm else b.where(0), "a provided value is bound only on the true edge of "
             "`arg_def.type_matches(&value)` evaluated on that value; the mismatch edge ends in Err" + ("" if ok else " — VIOLATED"))
